@@ -523,9 +523,9 @@ class MoobotFactoids(callbacks.Plugin):
                irc.error(format(_('Factoid %q is not locked.'), key))
                return
         # Can only lock/unlock own factoids unless you're an admin
-        #self.log.debug('admin?: %s', ircdb.checkCapability(id, 'admin'))
+        #self.log.debug('admin?: %s', ircdb.checkCapability(msg.prefix, 'admin'))
         #self.log.debug('created_by: %s', created_by)
-        if not (ircdb.checkCapability(id, 'admin') or created_by == id):
+        if not (ircdb.checkCapability(msg.prefix, 'admin') or created_by == id):
             if locking:
                 s = 'lock'
             else:
